@@ -3,6 +3,7 @@
 package sqlworld
 
 import (
+	"database/sql/driver"
 	"encoding/json"
 	"fmt"
 	"reflect"
@@ -29,6 +30,58 @@ func (t *TextT) UnmarshalText(b []byte) error {
 		return fmt.Errorf("bad TextT %q", b)
 	}
 	t.V = string(b[2:])
+	return nil
+}
+
+// ScanT brings its own SQL representation: driver.Valuer on the value, sql.Scanner on the
+// pointer (what database/sql itself would use); no tag.
+type ScanT struct{ V string }
+
+func (s ScanT) Value() (driver.Value, error) { return []byte("sc:" + s.V), nil }
+func (s *ScanT) Scan(src interface{}) error {
+	var b []byte
+	switch x := src.(type) {
+	case []byte:
+		b = x
+	case string:
+		b = []byte(x)
+	case nil:
+		*s = ScanT{}
+		return nil
+	default:
+		return fmt.Errorf("bad ScanT source %T", src)
+	}
+	if len(b) < 3 || string(b[:3]) != "sc:" {
+		return fmt.Errorf("bad ScanT %q", b)
+	}
+	s.V = string(b[3:])
+	return nil
+}
+
+// BinOnlyT only offers encoding.BinaryMarshaler / BinaryUnmarshaler.
+type BinOnlyT struct{ V uint16 }
+
+func (b BinOnlyT) MarshalBinary() ([]byte, error) {
+	return []byte{0x6f, byte(b.V >> 8), byte(b.V)}, nil
+}
+func (b *BinOnlyT) UnmarshalBinary(x []byte) error {
+	if len(x) != 3 || x[0] != 0x6f {
+		return fmt.Errorf("bad BinOnlyT %x", x)
+	}
+	b.V = uint16(x[1])<<8 | uint16(x[2])
+	return nil
+}
+
+// JsonT has its own JSON form.
+type JsonT struct{ A, B int }
+
+func (j JsonT) MarshalJSON() ([]byte, error) { return []byte(fmt.Sprintf("[%d,%d]", j.A, j.B)), nil }
+func (j *JsonT) UnmarshalJSON(b []byte) error {
+	var x []int
+	if err := json.Unmarshal(b, &x); err != nil || len(x) != 2 {
+		return fmt.Errorf("bad JsonT %q", b)
+	}
+	j.A, j.B = x[0], x[1]
 	return nil
 }
 
@@ -123,11 +176,15 @@ type RowC struct {
 	PBin   *BinT                  `sql:",binary"`
 	Both   BothT                  `sql:",binary"`
 	PBoth  *BothT                 `sql:",binary"`
-	Proto  thunderpb.Field        `sql:",binary"`
-	PProto *thunderpb.Field       `sql:",binary"`
-	INS    string                 `sql:",implicitnull"`
-	INI    int64                  `sql:"ini,implicitnull"`
-	INB    []byte                 `sql:",implicitnull"`
+	BinO   BinOnlyT               `sql:",binary"`
+	JMar   JsonT                  `sql:",json"`
+	Sc     ScanT
+	PSc    *ScanT
+	Proto  thunderpb.Field  `sql:",binary"`
+	PProto *thunderpb.Field `sql:",binary"`
+	INS    string           `sql:",implicitnull"`
+	INI    int64            `sql:"ini,implicitnull"`
+	INB    []byte           `sql:",implicitnull"`
 }
 
 var Tables = []string{"row_a", "row_b", "row_c"}
@@ -233,6 +290,15 @@ func genValue(t *rapid.T, typ reflect.Type, name string) reflect.Value {
 		return v
 	case reflect.TypeOf(BothT{}):
 		v.Set(reflect.ValueOf(BothT{V: rapid.SampledFrom([]uint32{0, 1, 0x01020304, 0xfffffffe}).Draw(t, "both")}))
+		return v
+	case reflect.TypeOf(BinOnlyT{}):
+		v.Set(reflect.ValueOf(BinOnlyT{V: rapid.SampledFrom([]uint16{0, 1, 0x0102, 0xfffe}).Draw(t, "bino")}))
+		return v
+	case reflect.TypeOf(JsonT{}):
+		v.Set(reflect.ValueOf(JsonT{A: rapid.IntRange(0, 2).Draw(t, "jma"), B: rapid.IntRange(-1, 1).Draw(t, "jmb")}))
+		return v
+	case reflect.TypeOf(ScanT{}):
+		v.Set(reflect.ValueOf(ScanT{V: rapid.SampledFrom(strPool).Draw(t, "sc")}))
 		return v
 	case reflect.TypeOf(thunderpb.Field{}):
 		f := thunderpb.Field{Kind: thunderpb.FieldKind_Int, Value: &thunderpb.Field_Int{Int: int64(rapid.IntRange(0, 3).Draw(t, "pint"))}}
